@@ -367,7 +367,7 @@ def round_trips(rec, seed, bits, maxlen):
                     z3.And([z3.And(T(b) >= 0, T(b) < 256) for b in by])
                     if len(by) else z3.BoolVal(True),
                     (T(by[0]) != 0) if len(by) else x.t == 0)
-      r, m, _ = e.prove(goal)
+      r, m, _ = e.prove(goal, timeout_ms=120000)
       if r == 'proved':
         rec.obligation('proved')
       elif r == 'unknown':
@@ -457,7 +457,7 @@ def jobs(tier, seed):
                    dict(hlens=hl2[i::4], rlen=3), timeout=2400,
                    cost=2 * len(hl2)))
   out.append(Job('round_trips', round_trips,
-                 dict(bits=40 if not thorough else 72,
-                      maxlen=4 if not thorough else 6), timeout=2400,
+                 dict(bits=40 if not thorough else 48,
+                      maxlen=4 if not thorough else 5), timeout=2400,
                  cost=20))
   return out
